@@ -220,7 +220,7 @@ func checkC10(c *Ctx) {
 					opv, _ := constOf(a[2])
 					wantOp := constIntOf(c.P, repoMod+"/proto", w[1])
 					desc = pathOf(a[1]) + ", op=" + fmt.Sprint(opv)
-					if strings.Contains(pathOf(a[1]), w[0]+".Nanoseconds()") && opv != nil && opv.ExactString() == wantOp && pathOf(a[0]) == cl.Params[0].Name() {
+					if strings.Contains(pathOf(a[1]), w[0]+".Nanoseconds()") && opv != nil && opv.ExactString() == wantOp && pathOf(a[0]) == pname(cl.Params[0]) {
 						okk = true
 					}
 				}
